@@ -17,10 +17,16 @@ CFG = {'lean_modules': ['ObiVerif.Props.C09'],
          'd1 on close pairs (0..2 edits, runs of equal symbols frequent); lcslong: 13 (thorough 16) pairs in compact form with lengths below, at '
          'and above the sentinel length 30000 (one sequence of 29990..40000 bases against 0..2 bases; two sequences of 9000..20000 bases with '
          'narrow bands, both modes), nil and reused buffer, arguments exchanged, naive full-matrix oracle; every lcs answer is also checked '
-         'for the range of its third result (end); non-trivial = distinct well-formed case',
+         'for the range of its third result (end); THIRD PASS: samerow also checks every one of the 256 x 256 byte pairs against the documented behaviour of '
+         '_samenuc outside the IUPAC alphabet (non-letter = itself only, non-IUPAC letter = nothing) and for symmetry; 200 (thorough 8 x 1500) pairs over '
+         'ALL kinds of bytes (IUPAC both cases, e/x/z, - . * digits, control and high bytes, case-flipped copies), both modes, d1 too, the naive DP '
+         'oracle now running on them with the documented compatibility; lcslong + 11 frontier cases (|A| = 30000 exactly; explicit bound >= |A| > 30000; both '
+         'sequences 32001 / 32767 long with a narrow band, |a|+|b| = 65534; endgapfree with both > 30000) with analytic oracles where the full matrix '
+         'is too large; non-trivial = distinct well-formed case',
  'technique': 'Lean 4 theorems (table lemma by decide over the table regenerated from the source; packed-cell arithmetic on UInt64; inductions on the '
               'banded matrix and on prefix/suffix stripping; REFINEMENT proofs: loop invariants of the index loops of D1Or0, and of the two-row '
-              'anti-diagonal buffer of FastLCSEGFScoreByte against the cells of the banded matrix, by induction over the outer loop) + differential '
+              'anti-diagonal buffer of FastLCSEGFScoreByte against the cells of the banded matrix, by induction over the outer loop; THIRD PASS: lower-bound invariant over in-band end-gap-free paths (optimality of endgapfree=true), '
+              'shape invariant of the band (interior cells in-band, border cells _setout, all realised) giving the true length frontier) + differential '
               'correspondence of the model layers (verbatim loops, structural for BOTH modes, buffer threaded through histories of calls) with the real kernels + '
               'naive full-matrix / Levenshtein oracles on the real code',
  'level_text': 'Proved for all inputs: iupac_table_is_bitset (the regenerated _iupac table is the IUPAC bit-set table; with the unrepaired value '
@@ -45,23 +51,25 @@ CFG = {'lean_modules': ['ObiVerif.Props.C09'],
                'panics - no slice access out of range - and returns ONE (score, length, end) for every scratch buffer: nil, pre-allocated with any '
                'stale word, or the caller buffer of any capacity and content; relational invariant over two runs) and '
                'fastLCS_anymode_history_independent (any history of calls of either mode on one buffer, any order, any initial buffer = the fresh '
-               'answers). ENDGAPFREE = TRUE (second deepening): specification EgfAli/EgfOpt (an alignment of a FACTOR of the longer sequence with the whole of the shorter one: the overhangs of the longer sequence are free, read off the code - FastLCSEGFScore has no caller), structural layer bandEGF (banded matrix by rows with bandCellE); fastLCSEGF_verbatim_refines / fastLCSEGF_buffer_refines / fastLCSEGFScore_verbatim_refines (all inputs, no length bound, every bound and every scratch buffer: the verbatim kernel with endgapfree=true never panics and returns exactly (score, length) of bandEGF, and 0 <= end <= max(|a|,|b|); EvenOK/OddOK invariant machinery re-used on cellME); fastLCSEGF_sound / fastLCSEGF_verbatim_sound (|a|+|b| < 30000: an answer is the score and length of an actual end-gap-free alignment - never spurious); fastLCSEGF_exact_partial (hence dominated by the end-gap-free optimum). SENTINEL: lcs_sentinel_role (below length 30000 _out < _notavail < every real in-band cell; from 30001 on a real score-0 cell loses against _notavail), fastLCS_length_bound_needed (for EVERY A with 30000 < |A| <= 65534 the verbatim kernel answers (0,30000,0) for A against the empty sequence where the optimum is (0,|A|): the length hypothesis of fastLCS_exact cannot be dropped - the model has the real uint64 / 16-bit field widths, which is why the refinement theorems need no length bound: both layers wrap alike). CALLERS: d1or0_caller_swap (obiclean records makeEdge(.., pos, a2, a1) after D1Or0(son, father): (pos, a2, a1) is the edit turning the father into the son), fastLCSScore_caller_decides (obiclean/obitag accept a pair iff lcs >= 0 and alilength - lcs <= e: iff the optimum has at most e differences, and then the difference count is exact), lpath_isout_eq_decode. PARTIAL: the second half of the EXACTNESS of endgapfree=true (within the bound the answer dominates every end-gap-free alignment - full statement in Props/C09.lean) is tied by the naive end-gap-free DP oracle on the real code only; the VALUE of the third result end is tied by correspondence only (its range is proved).',
+               'answers). ENDGAPFREE = TRUE (second deepening): specification EgfAli/EgfOpt (an alignment of a FACTOR of the longer sequence with the whole of the shorter one: the overhangs of the longer sequence are free, read off the code - FastLCSEGFScore has no caller), structural layer bandEGF (banded matrix by rows with bandCellE); fastLCSEGF_verbatim_refines / fastLCSEGF_buffer_refines / fastLCSEGFScore_verbatim_refines (all inputs, no length bound, every bound and every scratch buffer: the verbatim kernel with endgapfree=true never panics and returns exactly (score, length) of bandEGF, and 0 <= end <= max(|a|,|b|); EvenOK/OddOK invariant machinery re-used on cellME); fastLCSEGF_sound / fastLCSEGF_verbatim_sound (|a|+|b| < 30000: an answer is the score and length of an actual end-gap-free alignment - never spurious); fastLCSEGF_exact_partial (hence dominated by the end-gap-free optimum). SENTINEL: lcs_sentinel_role (below length 30000 _out < _notavail < every real in-band cell; from 30001 on a real score-0 cell loses against _notavail), fastLCS_length_bound_needed (for EVERY A with 30000 < |A| <= 65534 the verbatim kernel answers (0,30000,0) for A against the empty sequence where the optimum is (0,|A|): the length hypothesis of fastLCS_exact cannot be dropped - the model has the real uint64 / 16-bit field widths, which is why the refinement theorems need no length bound: both layers wrap alike). CALLERS: d1or0_caller_swap (obiclean records makeEdge(.., pos, a2, a1) after D1Or0(son, father): (pos, a2, a1) is the edit turning the father into the son), fastLCSScore_caller_decides (obiclean/obitag accept a pair iff lcs >= 0 and alilength - lcs <= e: iff the optimum has at most e differences, and then the difference count is exact), lpath_isout_eq_decode. THIRD PASS. ENDGAPFREE = TRUE, EXACTNESS (was partial): fastLCSEGF_exact (FULL: with no bound, or whenever l - s of the end-gap-free optimum (s, l) does not exceed the bound, the kernel returns exactly (s, l); optimum = most matches then fewest columns over alignments of a factor of the longer sequence with the whole shorter one), fastLCSEGF_exact_cover (min(|a|,|b|) <= s + e suffices), fastLCSEGF_unbounded (no bound: an answer always, and it is the optimum - which therefore exists), fastLCSEGF_beyond (otherwise not found or a pair itself beyond the bound), fastLCSEGF_decides_bound, fastLCSEGF_verbatim_exact / fastLCSEGFScore_verbatim_exact (on the verbatim kernel / exported wrapper, any scratch buffer), all for |a|+|b| < 30000. TRUE LENGTH FRONTIER of endgapfree=false: LenOK := |a|+|b| <= 65534 and (both sequences <= 30000, or explicit bound e <= 14999); under LenOK fastLCS_sound_long, fastLCS_exact_long (full statement), fastLCS_beyond_long, fastLCS_verbatim_exact_long / _sound_long, fastLCSScore_caller_decides_long (the old hypothesis |a|+|b| < 30000 is a special case: lenOK_of_sum); beyond it the kernel is wrong: fastLCS_length_bound_needed (no bound) and fastLCS_length_bound_needed_explicit (EVERY A with 30000 < |A| <= 65534 against the empty sequence, every bound e >= |A|: (0,30000)). BYTES: samenuc_symm_all_bytes (all 256 x 256), samenuc_non_letter (a byte that is not a letter matches exactly itself), samenuc_non_iupac_letter (e f i j l o p q x z, either case - list decided on the regenerated table - match NOTHING, not even themselves). SYMMETRY OF THE KERNEL: fastLCS_symm_unequal (different lengths, both modes, every bound, no length bound), fastLCS_symm_within (within LenOK and the bound). CALLERS: d1_zero_imp_lcs_full (identical sequences of self-matching symbols: D1Or0 = 0 and FastLCSScore = (n, n)). STILL PARTIAL / NOT PROVED: the endgapfree=true theorems keep |a|+|b| < 30000 (the shape invariant was done for endgapfree=false only; harness case with both > 30000 agrees); the VALUE of the third result end is tied by correspondence only (its range is proved); symmetry for EQUAL lengths beyond the bound (transposed matrix) is tied by the harness only; endgapfree=false with a sequence longer than 30000 and an explicit bound 15000 <= e < |A|, and |a|+|b| > 65534, are neither proved nor refuted.',
  'level_note': 'Trusted: Lean kernel; the transcriptions in Model/Lcs.lean and Model/LcsBuf.lean (the latter only splits the former at the buffer: '
                'fastLCSEGFScoreByte_eq_runFrom proves fastLCSEGFScoreByte = setup followed by runFrom on its fill buffer); the extractor (literals of '
                '_iupac). The verbatim layers (index loops of D1Or0; two anti-diagonal rows in one buffer with the xs/xf index arithmetic of '
                'FastLCSEGFScoreByte, endgapfree=false) are now PROVED equal to the structural layers (d1F; bandLCS) the property theorems were stated '
                'on, so every C09 theorem holds of the verbatim transcription (vm_C09 still answers layer-mismatch if the executed layers ever '
-               'differed). NOT proved: for endgapfree=true the optimality half of exactness (soundness, refinement, freedom from panics, buffer independence ARE proved) and the meaning of end (no caller uses it; only 0 <= end <= max length is proved); exactness / soundness for 30000 <= |a|+|b| with both sequences <= 30000 (the harness runs such pairs - lcslong - and the naive oracle agrees, the theorems do not cover them). KNOWN LIMIT of the real code (finding C09-len30000, theorem fastLCS_length_bound_needed, lcslong cases): with a sequence longer than 30000 the alignment length is understated (c x30005+a against a: (1,30001) instead of (1,30006)); the model reproduces these answers; the oracle deviation is reported under the signature lcslong.sentinel-length once the finding is listed in known_findings.json and counted as a statistic until then; the buffer model identifies the caller\'s slice with its cap-long backing array (len < cap callers are not '
+               'differed). NOT proved: the meaning of end (no caller uses it; only 0 <= end <= max length is proved); endgapfree=true beyond |a|+|b| < 30000; endgapfree=false beyond LenOK other than the refuted families (sequence > 30000 with no bound or a bound >= its length); equal-length symmetry beyond the bound. New lemma files of the third pass: Lemmas/LcsEgfOpt.lean (EIn, cellME_lb, EgfAli.toEIn, bandEGF_exact / _within_is_opt / _beyond / _unbounded), Lemmas/LcsLong.lean (RealC, bandCell_real, bandCell_lb_long, LenOK, bandLCS_*_long, bandLCS_long_row0_bound), Lemmas/LcsBytes.lean. KNOWN LIMIT of the real code (finding C09-len30000, theorem fastLCS_length_bound_needed, lcslong cases): with a sequence longer than 30000 the alignment length is understated (c x30005+a against a: (1,30001) instead of (1,30006)); the model reproduces these answers; the oracle deviation is reported under the signature lcslong.sentinel-length (the finding IS listed in known_findings.json: the lcslong cases print KNOWN-FINDING); the buffer model identifies the caller\'s slice with its cap-long backing array (len < cap callers are not '
                'distinguished - the code only uses cap and re-slices).',
  'trusted_base': LEAN_TB + ['extract/ (go/ast literal extraction of _iupac)', 'naive full-matrix LCS (specified IUPAC compatibility) and Levenshtein oracles in the harness'],
  'modelled': 'pkg/obialign fastlcsegf.go (_iupac, _samenuc, FastLCSEGFScoreByte in BOTH modes incl. the buffer re-allocation test cap < 2*width and the reuse of '
              'the caller buffer across calls, FastLCSScore, FastLCSEGFScore), fastlcs.go (encodeValues, decodeValues, _incpath, _incscore, _setout, '
              '_empty/_out/_notavail, _lpath, _isout), is_d0_or_d1.go (D1Or0); the conventions of the callers obiclean/graph.go (D1Or0(son, father) + '
              'makeEdge(.., a2, a1); FastLCSScore + lali - lcs <= step) and obitag.go (FastLCSScore + alilength - lcs) as theorems',
- 'assumptions': ['|a| + |b| < 30000 for the LCS exactness/soundness theorems (sentinel length 30000; 16-bit score/length fields); the refinement and '
+ 'assumptions': ['endgapfree=false: LenOK (|a|+|b| <= 65534 and (both <= 30000 or explicit bound <= 14999)) for the exactness/soundness theorems - the true frontier of '
+                 'the sentinel length 30000 and the 16-bit length field; endgapfree=true: |a| + |b| < 30000; the refinement and '
                  'buffer-independence theorems need no length bound',
                  'symbols outside the IUPAC alphabet: the property does not say what matches; the model follows the code (letters that are not IUPAC '
-                 'codes match nothing, not even themselves; other bytes match iff equal) and the oracle is silent on them',
+                 'codes match nothing, not even themselves; other bytes match iff equal - now theorems samenuc_non_letter / samenuc_non_iupac_letter) and the harness '
+                 'oracle uses that documented behaviour',
                  'D1Or0 is given the stored (lower-cased) sequences of the BioSequence objects',
                  'a scratch buffer is used by one goroutine at a time (as all callers do: one buffer per worker)',
                  'endgapfree=true: the specification (free overhangs of the LONGER sequence, the first argument when the lengths are equal) is '
